@@ -13,7 +13,7 @@ usage: vendor_patch.py --write | --check
 """
 import glob, os, sys
 
-VENDOR = '/verif/vendor/orx-concurrent-iter-1.30.0'
+VENDOR = os.path.join(os.path.dirname(os.path.dirname(os.path.abspath(__file__))), 'vendor', 'orx-concurrent-iter-1.30.0')
 KEEP_DIRS = ['src']
 KEEP_FILES = ['Cargo.toml', 'README.md', 'LICENSE-APACHE', 'LICENSE-MIT']
 
